@@ -1331,6 +1331,21 @@ impl<'a> Interp<'a> {
                         }
                     }
                     self.store_loc(&loc, 0)?;
+                    if let Some(a) = self.loc_addr(&loc) {
+                        // the location now holds an unspecified value: reading it back is outside the domain
+                        self.strobed.insert(a);
+                        let names: Vec<String> = self
+                            .globals
+                            .iter()
+                            .filter(|(_, g)| matches!(g.decl.kind, VarKind::ConstPtr(p) if p as u16 == a))
+                            .map(|(n, _)| n.clone())
+                            .collect();
+                        for n in names {
+                            if !self.unspecified.contains(&n) {
+                                self.unspecified.push(n);
+                            }
+                        }
+                    }
                 }
                 Ok(Flow::Normal)
             }
